@@ -3,7 +3,7 @@ Import ListNotations.
 From BB Require Import BN Brute SpaceFacts TrapFacts PercolateFacts AttractorFacts Diagram Invariants Checks Filter
   Strict PetriNet Control Meta FilterFacts PetriNetFacts TrappistFacts DiagramStruct DiagramSem1 DiagramCache
   DiagramDepth DiagramComplete Termination ControlFacts MetaFacts Candidates StrictFacts MinExpandFacts CandidatesFacts SymbolicTest SymbolicTestFacts Signed ReductionFacts ControlFacts2 Main Blocks BlocksFacts ObsFacts OwnerFacts CandidatesTerm
-  PartialOwner BlockMath BlockComplete ASeeds ASeedsFacts LogChecks SkipRule SkipRuleFacts Names NamesFacts Perm PermFacts SCC SCCFacts SCCStruct ControlFacts3 SCCTerm FilterSym Main2 StrategyFacts ControlFacts4 PyLib PySrc PySrcFacts SkipRuleFacts2 SCCComplete SCCAttr BlockComplete2 ControlFacts5 Iso SkipSem."""
+  PartialOwner BlockMath BlockComplete ASeeds ASeedsFacts LogChecks SkipRule SkipRuleFacts Names NamesFacts Perm PermFacts SCC SCCFacts SCCStruct ControlFacts3 SCCTerm FilterSym Main2 StrategyFacts ControlFacts4 PyLib PySrc PySrcFacts SkipRuleFacts2 SCCComplete SCCAttr BlockComplete2 ControlFacts5 Iso SkipSem ControlFacts6."""
 
 EX_NET = """
 (* non-vacuity: two bistable switches; x0'=x1, x1'=x0, x2'=x3, x3'=x2 *)
@@ -213,6 +213,10 @@ forces it, the final trap space meets the target and every minimal trap space in
            ("source_is_subspace", "py_is_subspace_spec", "translator tie: the function generated from the CURRENT source of space_utils.is_subspace equals the model's subspace"),
            ("source_intersect", "py_intersect_spec", "... and space_utils.intersect the model's intersect"),
            ("control_after_any_plain_history", "control_after_plain_history_sound", "the whole call -- target-directed expansion of ANY plainly reached diagram, then succession control with either setting of skip_feedforward_successions -- reports only interventions that satisfy the property"),
+           ("control_after_ANY_history", "control_after_any_history_sound", "the same for EVERY history of operations, skip operations (skip_to_minimal, skip_remaining, minimal-space expansion with skipping) included: the reported interventions are sound on diagrams with skip nodes and parentless minimal-trap nodes"),
+           ("control_sound_on_skipped_diagrams", "succession_control_sound_any", "succession_control on any diagram satisfying the all-history invariant AnyInv"),
+           ("target_expansion_on_skipped_diagrams", "target_expansion_TargetExpanded_any", None),
+           ("invariant_of_all_histories", "run_AnyInv_Anch", None),
            ("target_expansion_from_any_plain_diagram", "target_expansion_TargetExpanded_from", None)],
  examples="")
 
